@@ -29,6 +29,7 @@ structure Shape (V : Type) where
   cons : List (LinCon V)
   prods : List (V × List V)
   lin : List (Rat × V)
+  ints : List (V × Nat) := []     -- general integers `0 .. ub` (not part of a yielded assignment)
 
 /-- Variables of the encoded model. -/
 inductive SVar (V : Type)
@@ -51,6 +52,7 @@ def rowCons (i : Nat) (r : Row V) : List (LinCon (SVar V)) :=
 def Shape.toIlp (s : Shape V) : Ilp (SVar V) where
   vars :=
     s.bins.map (fun v => (SVar.b v, Kind.bin)) ++
+    s.ints.map (fun vu => (SVar.b vu.1, Kind.int vu.2)) ++
     s.rows.zipIdx.map (fun ri => (SVar.e ri.2, Kind.cont (ri.1.bound.map (fun b => -b)) ri.1.bound)) ++
     s.rows.zipIdx.map (fun ri => (SVar.a ri.2, Kind.cont (some 0) none))
   cons :=
@@ -66,32 +68,49 @@ def Shape.toIlp (s : Shape V) : Ilp (SVar V) where
 /-- Value of a binary under the assignment "exactly `act` are 1". -/
 def bval (act : List V) (v : V) : Rat := if act.contains v then 1 else 0
 
+/-- Value of a variable: a general integer has the value assigned to it, a binary `bval`. -/
+def sval (act : List V) (iv : List (V × Nat)) (v : V) : Rat :=
+  match iv.find? (fun e => e.1 == v) with
+  | some e => (e.2 : Rat)
+  | none => bval act v
+
 def absR (x : Rat) : Rat := if x < 0 then -x else x
 
-def Row.err (r : Row V) (act : List V) : Rat := r.target - evalTerms (bval act) r.terms
+def Row.errAt (r : Row V) (σ : V → Rat) : Rat := r.target - evalTerms σ r.terms
 
-def conHoldsB (c : LinCon V) (act : List V) : Bool :=
+def Row.err (r : Row V) (act : List V) : Rat := r.errAt (bval act)
+
+def conHoldsAt (c : LinCon V) (σ : V → Rat) : Bool :=
   match c.sense with
-  | .le => decide (evalTerms (bval act) c.terms ≤ c.rhs)
-  | .ge => decide (evalTerms (bval act) c.terms ≥ c.rhs)
+  | .le => decide (evalTerms σ c.terms ≤ c.rhs)
+  | .ge => decide (evalTerms σ c.terms ≥ c.rhs)
 
-def Shape.feasible (s : Shape V) (act : List V) : Bool :=
-  s.cons.all (fun c => conHoldsB c act) &&
+def Shape.feasibleAt (s : Shape V) (act : List V) (σ : V → Rat) : Bool :=
+  s.cons.all (fun c => conHoldsAt c σ) &&
   s.prods.all (fun p => act.contains p.1 == p.2.all (fun f => act.contains f)) &&
   s.rows.all (fun r => match r.bound with
     | none => true
-    | some b => decide (absR (r.err act) ≤ b))
+    | some b => decide (absR (r.errAt σ) ≤ b))
 
-def Shape.objective (s : Shape V) (act : List V) : Rat :=
-  (s.rows.map fun r => r.weight * absR (r.err act)).sum + evalTerms (bval act) s.lin
+def Shape.objectiveAt (s : Shape V) (σ : V → Rat) : Rat :=
+  (s.rows.map fun r => r.weight * absR (r.errAt σ)).sum + evalTerms σ s.lin
 
 /-- All sublists of `xs` (2ⁿ of them), each in the order of `xs`. -/
 def sublistsOf : List V → List (List V)
   | [] => [[]]
   | x :: xs => let r := sublistsOf xs; r ++ r.map (fun l => x :: l)
 
+/-- all assignments of the general integers within their bounds -/
+def intAssignments : List (V × Nat) → List (List (V × Nat))
+  | [] => [[]]
+  | (v, ub) :: rest => (List.range (ub + 1)).flatMap fun n => (intAssignments rest).map fun a => (v, n) :: a
+
+/-- feasible points as the enumeration loop sees them: the active binaries and the objective
+(points that differ only in their general integers share `act`) -/
 def Shape.points (s : Shape V) : List (Pt V) :=
-  (sublistsOf s.bins).filterMap fun act =>
-    if s.feasible act then some ⟨act, s.objective act⟩ else none
+  (sublistsOf s.bins).flatMap fun act =>
+    (intAssignments s.ints).filterMap fun iv =>
+      let σ := sval act iv
+      if s.feasibleAt act σ then some ⟨act, s.objectiveAt σ⟩ else none
 
 end Aldy
